@@ -346,6 +346,31 @@ func checkPacket(q parsedCfg, p packet, f fate) string {
 			if red != "" && !(red == q.inboundPort && p.outIf == "lo" && !loopDst && p.proto == "tcp") {
 				return "no_loop"
 			}
+			// no_loop, narrowed: that redirect is never taken by the proxy's own deliveries - packets from the
+			// passthrough source 127.0.0.6 / ::6, and packets owned by a LATER identity only (the TPROXY-mode proxy
+			// runs as uid 0 / gid <proxy gid>; its deliveries carry the original source and mark 1337).
+			// Two recorded corners remain (reported separately by `c20 finding`, see notes/C20.md):
+			// DNS capture with TCP port 53, and an explicitly included loopback range.
+			if red != "" {
+				pass6 := netip.MustParseAddr("127.0.0.6")
+				if p.v6 {
+					pass6 = netip.MustParseAddr("::6")
+				}
+				if p.src == pass6 {
+					return "delivery_loop:passthrough-source"
+				}
+				first := ""
+				ownsFirst := false
+				if len(q.uids) > 0 {
+					first, ownsFirst = "uid", p.uid == q.uids[0]
+				} else if len(q.gids) > 0 {
+					first, ownsFirst = "gid", p.gid == q.gids[0]
+				}
+				cornerDNS := q.dns && p.dport == 53
+				if first != "" && !ownsFirst && !cornerDNS && !q.loopbackIncluded {
+					return "delivery_loop:later-identity"
+				}
+			}
 			return ""
 		}
 		if p.ctstate != "NEW" {
